@@ -143,6 +143,15 @@ CHECKS = {
         'vector/matrix/tensor/triangular/identity-multiple samplers, random functions (amplitudes read from the closure; value compared with the model formula, bound, fixedness, arity, output dimension).',
    note=PROOF_NOTE + ' Partial: the RNG, np.linalg.det/eigvals numerics and the retry loop are not modelled (monitored within 1e-7); the matrix-algebra theorems are Mathlib statements about the operations apply_symmetry / make_det_one perform, tied to the code through the executable entry-list model by comparison; Orthogonal/Unitary samplers need scipy and are excluded.',
    technique='Lean 4 proof (interval arithmetic, triangle-inequality bound, Mathlib matrix algebra, decide over the constructor table) + scripted-RNG correspondence + contract monitor on real draws', design='§6 C12'),
+ 'C15': dict(
+   text='The library\'s own function definitions (sec csc cot arcsec arccsc arccot sech csch coth arcsech arccsch arccoth, the bodies of arctan2 and kronecker) are TRANSLATED from the AST of mathfuncs.py into Lean definitions over the reals on every run, and the default function / constant / suffix tables are read from the live module; '
+        'proved about the regenerated definitions: sec*cos = csc*sin = cot*tan = sech*cosh = csch*sinh = coth*tanh = 1 where defined; arccot x = arctan(1/x) for x != 0 with range (-pi/2, pi/2] and cot(arccot x) = x; sec(arcsec x) = x and csc(arccsc x) = x for |x| >= 1 with the principal ranges; '
+        'the inverse hyperbolic definitions invert the reciprocal functions whenever the primitive inverts its base function; arctan2(x, y) calls the primitive with (y, x) and refuses the origin; kronecker; the live tables equal the documented ones (every name bound to the documented primitive with the documented argument domain; i, j, e, pi; suffixes). '
+        'Hand model of SpecifyDomain.make_decorator and the eval_function arity check: ArgumentError iff the count is wrong (checked first, min_length variant), otherwise the function is called iff every argument has its declared shape and an ArgumentShapeError lists exactly the offending positions; scalar = number or one-element array, square = 2-axis square array. '
+        'Tie: translator + table obligations re-checked by the kernel on every run; the derived Python functions against the stated formula bit for bit; the decorator model against eval_function on random argument lists (numbers, vectors, matrices, tensors) for every table entry; '
+        'monitor: every table entry through evaluator() on real and complex grids, branch cuts, poles, extreme magnitudes against math/cmath, inverse identities f(f_inv(z)) = z, principal ranges, constants and matrix functions; no nan/inf value, only student-facing errors.',
+   note=PROOF_NOTE + ' Partial: numpy / scimath primitives (values, complex continuation, accuracy) are not modelled - they are parameters of the generated definitions and are monitored; the generated definitions are over the reals. factorial needs scipy and is excluded. Trusted in addition: the AST translator (80 lines, output committed and regenerated each run).',
+   technique='Lean 4 proof about definitions regenerated from the source (translator) using Mathlib real analysis; kernel-checked table equality; decorator decision theorems + correspondence + value monitor', design='§6 C15'),
  'C11': dict(
    text='ItemGrader.__call__ / AbstractGrader.__call__ modelled as a state machine over the grader object (stored answers, inferring flag, log flag, debug log) with validation, text check and grading as parameters; proved by induction over ANY call history '
         '(including calls that raise in validation, in the input check or in grading): the next call returns what a freshly constructed grader returns for the current expect value or the last successfully supplied one; '
